@@ -308,10 +308,10 @@ func runC14(e *Engine, r *Report, tier string) {
 			s1, s2 := false, false
 			for _, g := range GuardsOf(ret) {
 				ci, ok := NormCond(g)
-				if !ok || ci.Call == nil || callName(ci.Call) != "Equal" {
+				if !ok || (ci.Op != "==" && ci.Op != "!=") || ci.X == nil || ci.Y == nil {
 					continue
 				}
-				// operands
+				// operands (any spelling of the equality: bytes.Equal, Equals, ==, string compare)
 				isRecovered := func(v ssa.Value) bool {
 					res := e.Slice(v, SliceOpts{MaxDepth: 8}, func(x ssa.Value) Verdict {
 						if c, ok := x.(*ssa.Call); ok && callName(c) == "PubkeyToAddress" {
@@ -554,17 +554,35 @@ func runC14(e *Engine, r *Report, tier string) {
 							count[callName(c)]++
 						}
 					}
-				case "Equals":
-					for _, g := range []bool{true} {
-						_ = g
-						if v, isV := c.(ssa.Value); isV {
-							for _, ref := range *v.Referrers() {
-								if iff, ok := ref.(*ssa.If); ok && BranchFailsClean(iff, true, nil) {
-									count["proposer"]++
-								}
-							}
+				}
+			})
+			// proposer: an equality (in any spelling) between a party and the proposal's proposer whose true branch fails
+			allInstrs(f, func(i ssa.Instruction) {
+				iff, ok := i.(*ssa.If)
+				if !ok {
+					return
+				}
+				ci, ok := NormCond(Guard{iff.Cond, true, iff})
+				if !ok || ci.Op != "==" || ci.X == nil || ci.Y == nil {
+					return
+				}
+				isProposer := func(v ssa.Value) bool {
+					hit := false
+					e.Slice(v, SliceOpts{MaxDepth: 8, ThroughCalls: true, ConstLeafOK: true}, func(x ssa.Value) Verdict {
+						if n, _, ok := fieldName(x); ok && n == "Proposer" {
+							hit = true
+							return Accept
 						}
-					}
+						if c, ok := x.(*ssa.Call); ok && callName(c) == "GetProposer" {
+							hit = true
+							return Accept
+						}
+						return Continue
+					})
+					return hit
+				}
+				if (isProposer(ci.X) || isProposer(ci.Y)) && BranchFailsClean(iff, true, nil) {
+					count["proposer"]++
 				}
 			})
 		}
